@@ -172,10 +172,20 @@ func genThresholds(c *hmain.Ctx, g evGen) {
 		n := hx.Pick(r, []int{300, 700, 1200})
 		return []any{`{"log":"a `, rep{"ab 1234 ", n}, `","message":"`, rep{"xy ", n / 2}, `","level":"error","a":{"b":"`, rep{"z", n}, `"}}`}
 	}
+	// the actions whose prefix loops append to event.Buf (with the long-key events: beyond 4096)
+	appenders := []chainT{single(pluginIdx["flatten"], plugins[pluginIdx["flatten"]].cfgs[0]), single(pluginIdx["decode"], plugins[pluginIdx["decode"]].cfgs[1]),
+		single(pluginIdx["json_decode"], `{"field":"log","prefix":"p_"}`)}
 	for i := 0; i < 600*c.Scale; i++ {
 		ch := randChain(r.Range(1, 2))
+		if r.Chance(1, 4) {
+			ch = hx.Pick(r, appenders)
+			if oth := randChain(1); r.Chance(1, 2) && plugins[oth.first].typ != "k8s-multiline" {
+				ch.pl = append(append([]hx.Sx{}, ch.pl...), oth.pl...)
+			}
+		}
 		capacity := r.Range(1, 3)
-		evs := []hx.Sx{poolDirective(capacity, hx.Pick(r, []int{4, 64, 256, 4096}), r.Intn(capacity+1))}
+		// (0 = the low-memory pool: events of one size class bits.Len(size) share a sync.Pool)
+		evs := []hx.Sx{poolDirective(capacity, hx.Pick(r, []int{4, 64, 256, 4096, 0}), r.Intn(capacity+1))}
 		for k := r.Range(4, 10); k > 0; k-- {
 			kind := "small"
 			switch x := r.Intn(20); {
@@ -466,7 +476,8 @@ func genThresholds(c *hmain.Ctx, g evGen) {
 						if p2 > 16 {
 							evs = append(evs, evSx(warmDocs[p2]))
 						}
-						one(scalarStream, ch, append(evs, evSx(doc), small()))
+						// (emit moves it to the finding's stream when, and only when, it ends in the finding's panic)
+						one("additional-scalar-directed", ch, append(evs, evSx(doc), small()))
 					}
 				}
 			}
